@@ -77,61 +77,80 @@ func ruleJsonKinds(c *core.Ctx) {
 	rows := x.Extract("GetJsonDataType", d)
 	got := map[string][]string{}
 	tbl := map[string]string{}
-	for _, r := range rows {
-		if r.Kind != "return" || !strings.HasPrefix(r.Tmpl, "VAL:") {
-			continue
+	// the table is evaluated for each type shape: the atoms of the function's guards get the values
+	// that describe the shape, and the return rows whose guards hold give the kinds
+	const dimAtom = "type(ToGeneralizedType(Type).Dimensionality)"
+	const defAtom = "type(SimpleType.ResolvedDefinition)"
+	const keyOk = "GetPrimitiveType(Map.KeyType)#ok"
+	const keyIsString = "PrimitiveDefinition == \"string\""
+	scalar := func(extra map[string]string) map[string]string {
+		m := map[string]string{"Type != nil": "true", dimAtom: "nil", "len(ToGeneralizedType(Type).Cases) > 1": "false"}
+		for k, v := range extra {
+			m[k] = v
 		}
-		vtxt := strings.TrimPrefix(r.Tmpl, "VAL:")
-		mask, err := strconv.Atoi(vtxt)
-		if err != nil {
-			if k, isConst := sc.Lookup(vtxt).(*types.Const); isConst {
-				mask, err = strconv.Atoi(k.Val().ExactString())
+		return m
+	}
+	type shape struct {
+		key string
+		asg map[string]string
+	}
+	shapes := []shape{
+		{"cont:null", map[string]string{"Type != nil": "false"}},
+		{"cont:vector", map[string]string{"Type != nil": "true", dimAtom: "Vector"}},
+		{"cont:array,fixed", map[string]string{"Type != nil": "true", dimAtom: "Array", "Array.IsFixed()": "true"}},
+		{"cont:array,!fixed", map[string]string{"Type != nil": "true", dimAtom: "Array", "Array.IsFixed()": "false"}},
+		{"cont:map,stringkey", map[string]string{"Type != nil": "true", dimAtom: "Map", keyOk: "true", keyIsString: "true"}},
+		{"cont:map,otherkey", map[string]string{"Type != nil": "true", dimAtom: "Map", keyOk: "true", keyIsString: "false"}},
+		{"cont:map,otherkey", map[string]string{"Type != nil": "true", dimAtom: "Map", keyOk: "false", keyIsString: "false"}},
+		{"def:flags", scalar(map[string]string{defAtom: "EnumDefinition", "EnumDefinition.IsFlags": "true"})},
+		{"def:enum", scalar(map[string]string{defAtom: "EnumDefinition", "EnumDefinition.IsFlags": "false"})},
+		{"def:record", scalar(map[string]string{defAtom: "RecordDefinition"})},
+	}
+	for _, prim := range primitives18 {
+		shapes = append(shapes, shape{"prim:" + prim, scalar(map[string]string{defAtom: "PrimitiveDefinition", "PrimitiveDefinition": prim})})
+	}
+	for _, sh := range shapes {
+		mask := 0
+		n := 0
+		for _, r := range rows {
+			if r.Kind != "return" || !strings.HasPrefix(r.Tmpl, "VAL:") {
+				continue
 			}
-		}
-		if err != nil {
-			continue // recursive call for aliases
-		}
-		kinds := decodeKinds(mask)
-		gs := strings.Join(r.Guards, " ∧ ")
-		tbl[gs] = strings.Join(kinds, "|")
-		has := func(s string) bool { return strings.Contains(gs, s) }
-		switch {
-		case has("PrimitiveDefinition∈{"):
-			for _, g := range r.Guards {
-				if strings.HasPrefix(g, "PrimitiveDefinition∈{") {
-					for _, prim := range strings.Split(g[len("PrimitiveDefinition∈{"):len(g)-1], "|") {
-						prim = strings.Trim(prim, "\"")
-						prim = strings.TrimPrefix(prim, "dsl.")
-						if prim == "PrimitiveComplexFloat64" || prim == "ComplexFloat64" {
-							prim = "complexfloat64"
-						}
-						got["prim:"+prim] = kinds
-					}
+			// PrimitiveComplexFloat64 is the one primitive some switches spell by its variable
+			gs := make([]string, len(r.Guards))
+			for i, g := range r.Guards {
+				gs[i] = strings.ReplaceAll(strings.ReplaceAll(g, "dsl.PrimitiveComplexFloat64", "\"complexfloat64\""), "PrimitiveComplexFloat64", "\"complexfloat64\"")
+			}
+			sat, unknown := guardSat(gs, sh.asg)
+			if !sat {
+				continue
+			}
+			vtxt := strings.TrimPrefix(r.Tmpl, "VAL:")
+			m, err := strconv.Atoi(vtxt)
+			if err != nil {
+				if k, isConst := sc.Lookup(vtxt).(*types.Const); isConst {
+					m, err = strconv.Atoi(k.Val().ExactString())
 				}
 			}
-		case has("dsl.EnumDefinition}") && has("EnumDefinition.IsFlags") && !has("!(EnumDefinition.IsFlags)"):
-			got["def:flags"] = kinds
-		case has("dsl.EnumDefinition}"):
-			got["def:enum"] = kinds
-		case has("dsl.RecordDefinition}"):
-			got["def:record"] = kinds
-		case has("∈{dsl.Vector}"):
-			got["cont:vector"] = kinds
-		case has("∈{dsl.Array}") && has("Array.IsFixed()") && !has("!(Array.IsFixed())"):
-			got["cont:array,fixed"] = kinds
-		case has("∈{dsl.Array}"):
-			got["cont:array,!fixed"] = kinds
-		case has("∈{dsl.Map}") && has("== dsl.String") || has("∈{dsl.Map}") && has(`== "string"`):
-			if has("!(") && strings.Contains(gs, "!(ok") {
-				got["cont:map,otherkey"] = kinds
-			} else {
-				got["cont:map,stringkey"] = kinds
+			if err != nil {
+				continue // recursive call for aliases
 			}
-		case has("∈{dsl.Map}"):
-			got["cont:map,otherkey"] = kinds
-		case has("!(Type != nil)"):
-			got["cont:null"] = kinds
+			if len(unknown) > 0 {
+				c.Undecided(rule, "kinds/"+sh.key+"/condition", r.Pos, "the row for this type also depends on "+strings.Join(unknown, ", "))
+			}
+			mask |= m
+			n++
 		}
+		if n == 0 {
+			continue
+		}
+		kinds := decodeKinds(mask)
+		if old, dup := got[sh.key]; dup {
+			// two assignments of one shape (map with a non-primitive / a primitive non-string key): the kinds any of them yields
+			kinds = uniq(append(append([]string(nil), old...), kinds...))
+		}
+		got[sh.key] = kinds
+		tbl[sh.key] = strings.Join(kinds, "|")
 	}
 	c.Tables["json_kind_table"] = tbl
 	check := func(prefix string, want map[string][]string) {
